@@ -214,7 +214,7 @@ def check_C03(ctx, rt):
                     pass
             from props import run_decoder_stream
             run_decoder_stream(ctx, rt, "roundtrip-dec", sels, tname, tab)
-        ctx.sample({"smiles": pool[5], "selfies": sf.encoder(pool[5], strict=False)})
+        ctx.sample({"smiles": pool[5], "selfies": impl.real_encoder(pool[5], strict=False)[0][:300]})
         hypothesis_coverage(ctx, rt, pool, relaxed(sf))
         run_parse_stream(ctx, rt, "parse", pool[::rt.n(3, 2)])
         run_parse_stream(ctx, rt, "kekulize", pool[1::rt.n(3, 2)], kekulize=True)
@@ -1396,6 +1396,9 @@ def check_C19(ctx, rt):
         for intv in ([1e-6] if ctx.tier == "quick" else [1e-6, 1e-5, 1e-4]):
             sys.setswitchinterval(intv)
             for _r in range(rounds):
+                if _r > 0 and ctx.elapsed() > (900 if ctx.tier == "quick" else 3600):
+                    ctx.notes.append("thread stress stopped after %d rounds (time budget)" % _r)
+                    break
                 S = fresh_selfies()
                 work = [list(calls) for _ in range(nthreads)]
                 for w in work:
